@@ -257,7 +257,7 @@ def _strat_kl(draw, tier='quick'):
     nterm = draw(st.integers(1, 4))
     terms = []
     for _ in range(nterm):
-        L = draw(st.integers(1, 3))
+        L = draw(st.sampled_from([0, 1, 1, 2, 3]))  # 0: the empty product (identity, the overlap <i|j> itself)
         fac = []
         for _ in range(L):
             k = draw(st.integers(1, 2))
@@ -505,6 +505,10 @@ def run_loss(ctx, case):
             def forward(self):
                 return (torch.sin(self.zeta) * self.c).sum() + (self.alpha ** 3).sum() * self.mid[0] + torch.cos(self.mid[0] * self.alpha[1]) + self.frozen.sum()
         model = Multi()
+        if case['prng'] % 2 == 0:
+            # the documented hook for models with their own differentiation: grad_backward(loss) fills .grad (here through autograd, accumulating like torch does)
+            model.grad_backward = lambda loss: loss.backward()
+            ctx.label('model with grad_backward hook')
         theta0 = nq.optimize.get_model_flat_parameter(model)
         names = sorted(k for k, v in model.named_parameters() if v.requires_grad)
         want_flat = np.concatenate([dict(model.named_parameters())[k].detach().numpy().reshape(-1) for k in names])
